@@ -138,6 +138,10 @@ func (r *rec) constructor(ret, cfg string, resT reflect.Type) interface{} {
 		in = []reflect.Type{cfgT}
 	case "P":
 		in = []reflect.Type{ptrT}
+	case "E":
+		in = []reflect.Type{ecfgT}
+	case "Q":
+		in = []reflect.Type{reflect.PtrTo(ecfgT)}
 	}
 	var out []reflect.Type
 	var facT reflect.Type
@@ -173,6 +177,14 @@ func (r *rec) constructor(ret, cfg string, resT reflect.Type) interface{} {
 				arg = "nil"
 			} else {
 				arg = fmt.Sprintf("#%d=%s", r.id(p), cv(*p))
+			}
+		case "E":
+			arg = "=0,0,0"
+		case "Q":
+			// pointers to zero-size values have no observable identity: content only
+			arg = "=0,0,0"
+			if args[0].Interface().(*ECfg) == nil {
+				arg = "nil"
 			}
 		}
 		r.ev(fmt.Sprintf("C%d:%s", n, arg))
@@ -607,6 +619,9 @@ func runCase(c string) string {
 	if f[0] == "reg" {
 		return runReg(f)
 	}
+	if f[0] == "set" {
+		return runSet(f)
+	}
 	if len(f) != 13 || f[0] != "c18" {
 		return "unknown-case"
 	}
@@ -883,6 +898,7 @@ func gen(r *vh.Rand, tier string) []string {
 	out = append(out, genKinds(r, tier)...)
 	out = append(out, genConc(r, tier)...)
 	out = append(out, genSecs(r, tier)...)
+	out = append(out, genSets(r, tier)...)
 	return out
 }
 
